@@ -1,5 +1,6 @@
 (* C01 — property theorems about exception-flow skeletons (generic, proved once). *)
-From S2T Require Import C01.Exn C01.ExnProofs.
+From Coq Require Import List ZArith.
+From S2T Require Import C01.Exn C01.ExnProofs C01.Loops C01.LoopsProofs.
 
 (* the abstract interpretation over-approximates the relational semantics: whatever exception kind
    can escape a statement run at top level is in esc *)
@@ -33,3 +34,29 @@ Proof.
   - apply O_SeqE. apply O_AnyO.
 Qed.
 Print Assumptions C01_unwrapped_escapes.
+
+(* ---- termination of two input-driven record walks (fuel = remaining length + 1 always suffices,
+   i.e. the loops make strict progress on every byte string) *)
+Theorem C01_iter_records_terminates :
+  forall (d : list Z) (off : Z), bytes_ok d = true -> (0 <= off)%Z -> iter_records (fuel_for d off) d off <> None.
+Proof. exact iter_records_terminates. Qed.
+Print Assumptions C01_iter_records_terminates.
+
+Theorem C01_iter_records_in_bounds :
+  forall (d : list Z) (fuel : nat) (off : Z) (rs : list rec), bytes_ok d = true -> (0 <= off)%Z ->
+    iter_records fuel d off = Some rs ->
+    Forall (fun r => let '(_, _, _, o, e) := r in (off <= o /\ o + 8 <= e /\ e <= len d)%Z) rs.
+Proof. intros d fuel off rs Hb Ho. exact (iter_records_bounds d Hb fuel off rs Ho). Qed.
+Print Assumptions C01_iter_records_in_bounds.
+
+Theorem C01_jpeg_dims_terminates :
+  forall (d : list Z) (off : Z), bytes_ok d = true -> (0 <= off)%Z -> jpeg_dims (fuel_for d off) d off <> None.
+Proof. exact jpeg_dims_terminates. Qed.
+Print Assumptions C01_jpeg_dims_terminates.
+
+Example C01_loops_nonvacuous :
+  bytes_ok [15; 0; 232; 3; 8; 0; 0; 0; 0; 0; 160; 15; 0; 0; 0; 0]%Z = true
+  /\ iter_records (fuel_for [15; 0; 232; 3; 8; 0; 0; 0; 0; 0; 160; 15; 0; 0; 0; 0]%Z 0) [15; 0; 232; 3; 8; 0; 0; 0; 0; 0; 160; 15; 0; 0; 0; 0]%Z 0
+     = Some [(1000, 0, true, 0, 16); (4000, 0, false, 8, 16)]%Z.
+Proof. vm_compute. split; reflexivity. Qed.
+Print Assumptions C01_loops_nonvacuous.
